@@ -18,7 +18,10 @@ import (
 )
 
 func init() {
-	register("C19", "model_checking", opshellCampaign)
+	register("C19", "model_checking", func(r *ev.Run) {
+		opshellCampaign(r)
+		compositionLeg(r)
+	})
 }
 
 const (
